@@ -1,1 +1,6 @@
 import JominiModel.Props.C16
+#print axioms Jomini.Props.C16.C16_pretty_ws
+#print axioms Jomini.Props.C16.C16_render_valid
+#print axioms Jomini.Props.C16.C16_render_valid_pretty
+#print axioms Jomini.Props.C16.C16_narrowing
+#print axioms Jomini.Props.C16.C16_narrowing_integers
